@@ -108,11 +108,12 @@ def qb_menu(cls):
         step("replace_table", args(src(("T",)), src(("U", "V", "Y")))),
         step("as_", args(st.sampled_from(["qa", "qb"]).map(py))),
     ]
+    # the methods only one dialect class has are few among ~45 shared ones: weighted so that short histories reach them
     if cls == "mysql":
-        m.append(step("modifier", args(st.sampled_from(["SQL_CALC_FOUND_ROWS", "HIGH_PRIORITY"]).map(py))))
+        m += [step("modifier", args(st.sampled_from(["SQL_CALC_FOUND_ROWS", "HIGH_PRIORITY", "SQL_NO_CACHE"]).map(py)))] * 4
     if cls == "mssql":
-        m.append(step("top", args(st.integers(0, 9).map(py))))
-        m.append(step("fetch_next", args(st.integers(0, 9).map(py))))
+        m += [step("top", args(st.integers(0, 9).map(py)))] * 2
+        m += [step("fetch_next", args(st.integers(0, 9).map(py)))] * 2
     if cls == "postgresql":
         m.append(step("distinct_on", st.lists(S(st.sampled_from(["a", "b"]).map(py), gen.col(K)), min_size=1, max_size=2)))
         m.append(step("returning", st.lists(S(st.sampled_from(["a", "id", "*"]).map(py), gen.col(K), gen.raw_value(),
